@@ -1050,6 +1050,34 @@ def gen_movingpeaks(run, C, mp):
                                  dict(case0, kind="mp-config-list"))
 
 
+def gen_docs(run, B, mp, binary):
+    """The three places where the documentation's own formula / tabulated optimum contradicted the code (and the
+    literature) and was repaired (known findings, `fixed`): if the text comes back, the function no longer returns the value
+    of the formula its documentation states -- reported with the concrete input on which the two differ."""
+    import math
+    doc = B.rastrigin_skew.__doc__ or ""
+    case = {"kind": "documentation", "f": "rastrigin_skew", "x": [0.05]}
+    run.note_case(case)
+    if "\\cos(2\\pi x_i)" in doc or "cos(2\\pi x_i)" in doc.replace(" ", ""):
+        got = B.rastrigin_skew([0.05])[0]
+        stated = 10 + ((10 * 0.05) ** 2 - 10 * math.cos(2 * math.pi * 0.05))
+        run.oracle_violation("rastrigin_skew([0.05]) = %r, the formula in its documentation (cos(2 pi x_i)) gives %r" % (got, stated), case)
+    doc = mp.function1.__doc__ or ""
+    case = {"kind": "documentation", "f": "movingpeaks.function1", "x": [3.0, 4.0], "position": [0.0, 0.0], "height": 1.0, "width": 1.0}
+    run.note_case(case)
+    if "sqrt" in doc:
+        got = mp.function1([3.0, 4.0], [0.0, 0.0], 1.0, 1.0)
+        run.oracle_violation("movingpeaks.function1([3,4],[0,0],1,1) = %r, the formula in its documentation (with a square root) gives %r"
+                             % (got, 1.0 / (1.0 + 5.0)), case)
+    doc = (binary.chuang_f3.__doc__ or "").replace(" ", "")
+    case = {"kind": "documentation", "f": "chuang_f3", "bits": [1] * 41}
+    run.note_case(case)
+    if "[1,1,...,1]" in doc:
+        got = binary.chuang_f3([1] * 41)
+        if got != (40,):
+            run.oracle_violation("chuang_f3 documents [1,1,...,1] as a global optimum (value 40); chuang_f3([1]*41) = %r" % (got,), case)
+
+
 def gen_rand(run, B):
     saved = B.random
     try:
@@ -1134,5 +1162,6 @@ def main(run):
     gen_decorator_sequences(run, C, tools)
     gen_movingpeaks(run, C, movingpeaks)
     gen_rand(run, B)
+    gen_docs(run, B, movingpeaks, binary)
     run.correspond("all", "C20", C.terms, C.cases, shard=run.scale(150, 300),
                    requires=["From Coq Require Import Floats."])
